@@ -77,3 +77,22 @@ pub fn ctl_sort(v: &mut Vec<u8>) {
 pub fn ctl_fs() -> bool {
     std::fs::metadata("/tmp").is_ok()
 }
+
+// ---- controls for the order rule (element types are recognised by name) ----
+pub struct FnArg(pub u8);
+pub struct TraitFn(pub u8);
+pub fn ctl_order_rev(v: &[FnArg]) -> Vec<&FnArg> {
+    v.iter().rev().collect()
+}
+pub fn ctl_order_skip(v: &[FnArg]) -> Vec<&FnArg> {
+    v.iter().skip(1).collect()
+}
+pub fn ctl_order_take(v: &[TraitFn]) -> bool {
+    v.iter().take(1).any(|t| t.0 == 0)
+}
+pub fn ctl_order_swap(v: &mut Vec<FnArg>) {
+    v.swap(0, 1);
+}
+pub fn ctl_order_ok(v: &[FnArg]) -> Vec<u8> {
+    v.iter().filter_map(|a| if a.0 > 0 { Some(a.0) } else { None }).collect()
+}
